@@ -218,12 +218,12 @@ Definition compile_one (te : tyenv) (dn up : list (nat * option nat)) (pz : prov
     end
   | ClInit =>
     match param_slots te (pflow p FOut) None dn, param_slots te (pflow p FBypass) (Some (p_bypassR p)) dn with
-    | Some o, Some b => Some (mkCp pid ClInit par b o [] [] [] 0 None)
+    | Some o, Some b => Some (mkCp pid ClInit false b o [] [] [] 0 None)
     | _, _ => None
     end
   | ClInvoke =>
     match param_slots te (pflow p FOut) None dn, param_slots te (pflow p FRecv) (Some (p_upR p)) up with
-    | Some o, Some rc => Some (mkCp pid ClInvoke par [] o [] rc [] 0 None)
+    | Some o, Some rc => Some (mkCp pid ClInvoke false [] o [] rc [] 0 None)
     | _, _ => None
     end
   | ClUnset => None
